@@ -18,7 +18,7 @@ THEOREMS = [
     "C16_queryUtility_from_listings",
 ]
 RULE = ("histories of 5-40 calls of the eight register*/unregister* methods (+ re-__init__) on one Components "
-        "over a generated interface/class world, with identical / equal-but-distinct / unhashable components, "
+        "over a generated interface/class world, with identical / equal-but-distinct / unhashable / falsy components, "
         "several names and infos, related provided interfaces, explicit / factory= / inferred / class-valued "
         "arguments; after every call: return value, events, four listings, probe counters, 3 targeted queries "
         "(12 after the last call); a case is non-trivial when it registers a utility and at least one "
@@ -343,6 +343,9 @@ def gen_case(rng, permit, n_steps):
         nq = 12 if si == n_steps - 1 else 3
         steps.append({"op": op, "queries": [gen_query() for _ in range(nq)]})
     world["unhashable"] = rng.choice(UNHASHABLE_PRESETS)
+    # falsy components (bool(c) is False): an attribute of the implementation's objects only
+    r = rng.random()
+    world["falsy"] = [] if r < 0.3 else sorted(POOL) if r < 0.45 else [v for v in sorted(POOL) if rng.random() < 0.45]
     world["steps"] = steps
     world["permit"] = permit
     return world
@@ -548,7 +551,8 @@ def _py_op(op):
 def replay_text(case, obs, mode):
     lines = ["# PURE_PYTHON=%s ; zope.interface.registry.notify patched to record events" % ("1" if mode == "py" else "0"),
              "# S<k>: specification number k of the case's world (0 = Interface); c<v>: component/factory with identity v,",
-             "# equality class %r, unhashable identities %r" % (POOL, case.get("unhashable", [])),
+             "# equality class %r, unhashable identities %r, falsy identities %r"
+             % (POOL, case.get("unhashable", []), case.get("falsy", [])),
              "reg = Components('c16')"]
     for s, o in zip(case["steps"], obs.get("steps", [])):
         lines.append("%s   # -> %r events=%r" % (_py_op(s["op"]), o.get("ret"), o.get("events")))
